@@ -53,6 +53,7 @@ type Op struct {
 	U bool   `json:"u,omitempty"` // span is unsampled (end)
 	P int    `json:"p,omitempty"` // perturbation before the op (vk.Perturb)
 	T int    `json:"t,omitempty"` // flush/shutdown: ctx timeout in microseconds, 0 = none, -1 = already cancelled, -2/-3/-6 = cancelled 0.3/0.6/1.5 ms after the call was issued
+	D int    `json:"d,omitempty"` // end (through a provider only): D more goroutines End the same span at the same moment - it is still one span, exported once
 }
 
 // Case is one generated program.
@@ -113,6 +114,7 @@ func gen(t *rapid.T) Case {
 					case k < 14:
 						op.K, op.S = "end", next
 						op.U = rapid.IntRange(0, 7).Draw(t, "unsampled") == 0
+						op.D = rapid.SampledFrom([]int{0, 0, 0, 0, 0, 1, 1, 3}).Draw(t, "racing_ends")
 						next++
 					case k < 18:
 						op.K = "flush"
@@ -319,7 +321,7 @@ func runOnce(c Case) ([]vk.Violation, map[string]bool) {
 		}
 	}
 
-	var endSpan func(i int)
+	var endSpan func(i, d int)
 	var flush, shutdown func(context.Context) error
 	if c.ViaProvider {
 		sampler := samplerFunc(func(p sdktrace.SamplingParameters) sdktrace.SamplingResult {
@@ -344,7 +346,25 @@ func runOnce(c Case) ([]vk.Violation, map[string]bool) {
 			}
 			return -1
 		}
-		endSpan = func(i int) { spans[i].End() }
+		endSpan = func(i, d int) {
+			if d == 0 {
+				spans[i].End()
+				return
+			}
+			// d+1 goroutines End the span, released together by a spin barrier
+			var ready, wg = atomic.Int32{}, sync.WaitGroup{}
+			for j := 0; j <= d; j++ {
+				wg.Add(1)
+				go func() {
+					defer wg.Done()
+					ready.Add(1)
+					for ready.Load() <= int32(d) {
+					}
+					spans[i].End()
+				}()
+			}
+			wg.Wait()
+		}
 		flush, shutdown = tp.ForceFlush, tp.Shutdown
 	} else {
 		snaps := make([]sdktrace.ReadOnlySpan, total)
@@ -364,17 +384,17 @@ func runOnce(c Case) ([]vk.Violation, map[string]bool) {
 			sid := s.SpanContext().SpanID()
 			return int(binary.BigEndian.Uint64(sid[:])) - 1
 		}
-		endSpan = func(i int) { bsp.OnEnd(snaps[i]) }
+		endSpan = func(i, _ int) { bsp.OnEnd(snaps[i]) }
 		flush, shutdown = bsp.ForceFlush, bsp.Shutdown
 	}
 
 	ends := make([]endRec, total)
 	var cmu sync.Mutex
 	var calls []*callRec
-	doEnd := func(i, phase int) {
+	doEnd := func(i, phase, d int) {
 		ends[i].phase, ends[i].unsampled = phase, unsampled[i]
 		ends[i].start = clock.Tick()
-		endSpan(i)
+		endSpan(i, d)
 		ends[i].end = clock.Tick()
 		ends[i].done = true
 	}
@@ -401,7 +421,7 @@ func runOnce(c Case) ([]vk.Violation, map[string]bool) {
 				vk.Perturb(op.P)
 				switch op.K {
 				case "end":
-					doEnd(op.S, pi)
+					doEnd(op.S, pi, op.D)
 				case "flush":
 					doCall("flush", op.T, pi)
 				case "shutdown":
@@ -426,7 +446,7 @@ func runOnce(c Case) ([]vk.Violation, map[string]bool) {
 	var finalFlush *callRec
 	if !midShutdown {
 		finalFlush = doCall("flush", 0, final)
-		doEnd(nspans, final) // accounting span: cannot be dropped, the queue is empty
+		doEnd(nspans, final, 0) // accounting span: cannot be dropped, the queue is empty
 		doCall("flush", 0, final)
 		for _, e := range logs.Entries() {
 			if e.Msg == "exporting spans" {
@@ -443,8 +463,8 @@ func runOnce(c Case) ([]vk.Violation, map[string]bool) {
 	if firstShutdownIssue > lastShutdown.start {
 		firstShutdownIssue = lastShutdown.start
 	}
-	doEnd(nspans+1, final+1)
-	doEnd(nspans+2, final+1)
+	doEnd(nspans+1, final+1, 0)
+	doEnd(nspans+2, final+1, 0)
 	doCall("flush", 0, final+1)
 	time.Sleep(200 * time.Microsecond)
 
@@ -749,6 +769,15 @@ func run(c Case) ([]vk.Violation, vk.Info) {
 	}
 	info.ClassIf(c.Blocking, "blocking_mode")
 	info.ClassIf(c.ViaProvider, "via_tracer_provider")
+	racing := false
+	for _, ph := range c.Phases {
+		for _, ops := range ph {
+			for _, op := range ops {
+				racing = racing || (op.K == "end" && op.D > 0)
+			}
+		}
+	}
+	info.ClassIf(racing && c.ViaProvider, "span_ended_by_several_goroutines_at_once")
 	info.ClassIf(multi, "two_or_more_producers")
 	return vs, info
 }
@@ -948,7 +977,7 @@ func runFill(c FillCase) ([]vk.Violation, vk.Info) {
 func TestBatchSpanProcessorFill(t *testing.T) {
 	vk.Run(t, vk.Spec[FillCase]{
 		Property: "C01", Check: "bsp_fill",
-		Rule: "generated (queue size, batch size, overflow count, blocking, bare/provider) for a scenario in which the worker is parked inside a latched ExportSpans call so the queue fill level is known: exactly MaxQueueSize further spans must all be exported, later ones may only be dropped-and-counted; every case is non-trivial; distinct = distinct parameter tuples",
+		Rule:  "generated (queue size, batch size, overflow count, blocking, bare/provider) for a scenario in which the worker is parked inside a latched ExportSpans call so the queue fill level is known: exactly MaxQueueSize further spans must all be exported, later ones may only be dropped-and-counted; every case is non-trivial; distinct = distinct parameter tuples",
 		Quick: 150, Thorough: 1000,
 		Gen: genFill, Run: runFill, Repeat: 20,
 	})
